@@ -322,6 +322,163 @@ pub proof fn lemma_chain_n_step_rr<'a>(b: Seq<u8>, b2: Seq<u8>, p0: int, vs: Seq
              chain_n::<ResourceRecord>(b, p0, vs, i, b.len() as int), ResourceRecord::wf_dec(b2, b.len() as int, &vs[i], b2.len() as int)
     ensures chain_n::<ResourceRecord>(b2, p0, vs, i + 1, b2.len() as int)
 { reveal(chain_n); lemma_step_rr(b, b2, p0, vs, i); }
+/// a section written entry by entry after any prefix reads back as the same entries (element round trip lifted to sections)
+pub proof fn lemma_section_rt_q<'a>(pre: Seq<u8>, vs: Seq<Question<'a>>)
+    requires forall|i: int| 0 <= i < vs.len() ==> (#[trigger] vs[i]).wf_ok() && vs[i].wf_canon()
+    ensures chain::<Question>(pre + seq_enc::<Question>(vs), pre.len() as int, vs, (pre + seq_enc::<Question>(vs)).len() as int) // @C02:decode-of-encode
+    decreases vs.len()
+{
+    if vs.len() > 0 {
+        let dl = vs.drop_last();
+        assert forall|i: int| 0 <= i < dl.len() implies (#[trigger] dl[i]).wf_ok() && dl[i].wf_canon() by { assert(dl[i] == vs[i]); }
+        lemma_section_rt_q(pre, dl);
+        let b = pre + seq_enc::<Question>(dl);
+        let x = vs.last().wf_enc();
+        vs.last().lemma_rt(b);
+        lemma_qchain_stable(b, x, pre.len() as int, dl, b.len() as int);
+        assert(pre + seq_enc::<Question>(vs) =~= b + x);
+    } else {
+        assert(pre + seq_enc::<Question>(vs) =~= pre);
+    }
+}
+pub proof fn lemma_section_rt_rr<'a>(pre: Seq<u8>, vs: Seq<ResourceRecord<'a>>)
+    requires forall|i: int| 0 <= i < vs.len() ==> (#[trigger] vs[i]).wf_ok() && vs[i].wf_canon()
+    ensures chain::<ResourceRecord>(pre + seq_enc::<ResourceRecord>(vs), pre.len() as int, vs, (pre + seq_enc::<ResourceRecord>(vs)).len() as int) // @C02:decode-of-encode
+    decreases vs.len()
+{
+    if vs.len() > 0 {
+        let dl = vs.drop_last();
+        assert forall|i: int| 0 <= i < dl.len() implies (#[trigger] dl[i]).wf_ok() && dl[i].wf_canon() by { assert(dl[i] == vs[i]); }
+        lemma_section_rt_rr(pre, dl);
+        let b = pre + seq_enc::<ResourceRecord>(dl);
+        let x = vs.last().wf_enc();
+        vs.last().lemma_rt(b);
+        lemma_rrchain_stable(b, x, pre.len() as int, dl, b.len() as int);
+        assert(pre + seq_enc::<ResourceRecord>(vs) =~= b + x);
+    } else {
+        assert(pre + seq_enc::<ResourceRecord>(vs) =~= pre);
+    }
+}
+pub proof fn lemma_concat_assoc(a: Seq<u8>, b: Seq<u8>, c: Seq<u8>) ensures a + (b + c) == a + b + c { assert(a + (b + c) =~= a + b + c); }
+/// the wire-level additional section [OPT pseudo-record] + additional records: entries within limits, encoding = OPT record + records
+pub proof fn lemma_w0_all<'a>(w0: Seq<ResourceRecord<'a>>, adds: Seq<ResourceRecord<'a>>, oe: Seq<u8>)
+    requires
+        w0.len() <= 1,
+        w0.len() == 0 ==> oe.len() == 0,
+        w0.len() == 1 ==> w0[0].wf_ok() && w0[0].wf_canon() && w0[0].wf_enc() == oe,
+        forall|i: int| 0 <= i < adds.len() ==> (#[trigger] adds[i]).wf_ok() && adds[i].wf_canon(),
+    ensures
+        forall|i: int| 0 <= i < (w0 + adds).len() ==> (#[trigger] (w0 + adds)[i]).wf_ok() && (w0 + adds)[i].wf_canon(),
+        seq_enc::<ResourceRecord>(w0 + adds) == oe + seq_enc::<ResourceRecord>(adds),
+{
+    let all = w0 + adds;
+    lemma_enc_n_split::<ResourceRecord>(w0, adds);
+    if w0.len() == 1 {
+        lemma_seq_enc_one::<ResourceRecord>(w0[0]);
+        assert(w0 =~= seq![w0[0]]);
+    } else {
+        assert(w0 =~= Seq::<ResourceRecord>::empty());
+        assert(seq_enc::<ResourceRecord>(w0) =~= Seq::<u8>::empty());
+        assert(oe =~= Seq::<u8>::empty());
+    }
+    assert forall|i: int| 0 <= i < all.len() implies (#[trigger] all[i]).wf_ok() && all[i].wf_canon() by {
+        if i < w0.len() { assert(all[i] == w0[i]); } else { assert(all[i] == adds[i - w0.len()]); }
+    }
+}
+/// the four sections written after a 12-octet header: chains at the expected boundaries
+pub proof fn lemma_msg_chains<'a>(e0: Seq<u8>, qs: Seq<Question<'a>>, ans: Seq<ResourceRecord<'a>>, nss: Seq<ResourceRecord<'a>>, all: Seq<ResourceRecord<'a>>)
+    requires
+        e0.len() == 12,
+        forall|i: int| 0 <= i < qs.len() ==> (#[trigger] qs[i]).wf_ok() && qs[i].wf_canon(),
+        forall|i: int| 0 <= i < ans.len() ==> (#[trigger] ans[i]).wf_ok() && ans[i].wf_canon(),
+        forall|i: int| 0 <= i < nss.len() ==> (#[trigger] nss[i]).wf_ok() && nss[i].wf_canon(),
+        forall|i: int| 0 <= i < all.len() ==> (#[trigger] all[i]).wf_ok() && all[i].wf_canon(),
+    ensures ({
+        let qe = seq_enc::<Question>(qs); let ae = seq_enc::<ResourceRecord>(ans); let ne = seq_enc::<ResourceRecord>(nss);
+        let m = e0 + qe + ae + ne + seq_enc::<ResourceRecord>(all);
+        let p1 = 12 + qe.len() as int; let p2 = p1 + ae.len() as int; let p3 = p2 + ne.len() as int;
+        &&& m.len() >= 12 && m.subrange(0, 12) == e0
+        &&& p3 <= m.len()
+        &&& chain::<Question>(m, 12, qs, p1)
+        &&& chain::<ResourceRecord>(m, p1, ans, p2)
+        &&& chain::<ResourceRecord>(m, p2, nss, p3)
+        &&& chain::<ResourceRecord>(m, p3, all, m.len() as int)
+    }),
+{
+    let b1 = e0 + seq_enc::<Question>(qs);
+    let b2 = b1 + seq_enc::<ResourceRecord>(ans);
+    let b3 = b2 + seq_enc::<ResourceRecord>(nss);
+    let m = b3 + seq_enc::<ResourceRecord>(all);
+    lemma_section_rt_q(e0, qs);
+    lemma_section_rt_rr(b1, ans);
+    lemma_section_rt_rr(b2, nss);
+    lemma_section_rt_rr(b3, all);
+    // one concatenation at a time: each earlier chain survives the next append
+    lemma_prefix_concat(b1, seq_enc::<ResourceRecord>(ans));
+    lemma_prefix_concat(b2, seq_enc::<ResourceRecord>(nss));
+    lemma_prefix_concat(b3, seq_enc::<ResourceRecord>(all));
+    lemma_keep_q(b1, b2, 12, qs, b1.len() as int);
+    lemma_keep_q(b2, b3, 12, qs, b1.len() as int);
+    lemma_keep_q(b3, m, 12, qs, b1.len() as int);
+    lemma_keep_rr(b2, b3, b1.len() as int, ans, b2.len() as int);
+    lemma_keep_rr(b3, m, b1.len() as int, ans, b2.len() as int);
+    lemma_keep_rr(b3, m, b2.len() as int, nss, b3.len() as int);
+    assert(m.subrange(0, 12) == e0) by {
+        assert forall|j: int| 0 <= j < 12 implies m[j] == e0[j] by { assert(m[j] == b3[j] && b3[j] == b2[j] && b2[j] == b1[j] && b1[j] == e0[j]); }
+        assert(m.subrange(0, 12) =~= e0);
+    }
+}
+pub proof fn lemma_prefix_concat(b: Seq<u8>, x: Seq<u8>) ensures (b + x).len() >= b.len(), (b + x).subrange(0, b.len() as int) =~= b {}
+/// every entry of a section decoded from a DNS-sized message can be written back
+pub proof fn lemma_chain_ok_q<'a>(data: Seq<u8>, p0: int, vs: Seq<Question<'a>>, p1: int)
+    requires chain::<Question>(data, p0, vs, p1), 0 <= p0, data.len() <= 65535
+    ensures forall|i: int| 0 <= i < vs.len() ==> (#[trigger] vs[i]).wf_ok() && vs[i].wf_canon()
+    decreases vs.len()
+{
+    if vs.len() > 0 {
+        let q = choose|q: int| p0 <= q <= p1 && chain::<Question>(data, p0, vs.drop_last(), q) && #[trigger] Question::wf_dec(data, q, &vs.last(), p1);
+        lemma_chain_ok_q(data, p0, vs.drop_last(), q);
+        Question::lemma_dec_ok(data, q, &vs.last(), p1);
+        assert forall|i: int| 0 <= i < vs.len() implies (#[trigger] vs[i]).wf_ok() && vs[i].wf_canon() by {
+            if i < vs.len() - 1 { assert(vs.drop_last()[i] == vs[i]); }
+        }
+    }
+}
+pub proof fn lemma_chain_ok_rr<'a>(data: Seq<u8>, p0: int, vs: Seq<ResourceRecord<'a>>, p1: int)
+    requires chain::<ResourceRecord>(data, p0, vs, p1), 0 <= p0, data.len() <= 65535,
+             forall|i: int| 0 <= i < vs.len() ==> (#[trigger] vs[i]).wf_fit()
+    ensures forall|i: int| 0 <= i < vs.len() ==> (#[trigger] vs[i]).wf_ok() && vs[i].wf_canon()
+    decreases vs.len()
+{
+    if vs.len() > 0 {
+        let q = choose|q: int| p0 <= q <= p1 && chain::<ResourceRecord>(data, p0, vs.drop_last(), q) && #[trigger] ResourceRecord::wf_dec(data, q, &vs.last(), p1);
+        assert forall|i: int| 0 <= i < vs.drop_last().len() implies (#[trigger] vs.drop_last()[i]).wf_fit() by { assert(vs.drop_last()[i] == vs[i]); }
+        lemma_chain_ok_rr(data, p0, vs.drop_last(), q);
+        ResourceRecord::lemma_dec_ok(data, q, &vs.last(), p1);
+        assert forall|i: int| 0 <= i < vs.len() implies (#[trigger] vs[i]).wf_ok() && vs[i].wf_canon() by {
+            if i < vs.len() - 1 { assert(vs.drop_last()[i] == vs[i]); }
+        }
+    }
+}
+/// the additional records kept after lifting the OPT record are entries of the wire-level section
+pub proof fn lemma_lift_ok<'a>(add: Seq<ResourceRecord<'a>>, kept: Seq<ResourceRecord<'a>>, opt: Option<crate::rdata::OPT<'a>>)
+    requires opt_lifted(add, kept, opt), forall|i: int| 0 <= i < add.len() ==> (#[trigger] add[i]).wf_ok() && add[i].wf_canon(),
+    ensures
+        forall|i: int| 0 <= i < kept.len() ==> (#[trigger] kept[i]).wf_ok() && kept[i].wf_canon(),
+        opt is Some ==> kept.len() == add.len() - 1 && opt.unwrap().wf_ok() && opt.unwrap().wf_enc().len() <= 65535,
+        opt is None ==> kept.len() == add.len() && forall|i: int| 0 <= i < kept.len() ==> rdata_type(&(#[trigger] kept[i]).rdata) != crate::TYPE::OPT,
+{
+    if exists|i: int| 0 <= i < add.len() && rdata_type(&(#[trigger] add[i]).rdata) == crate::TYPE::OPT {
+        let i = choose|i: int| 0 <= i < add.len() && #[trigger] add[i].rdata is OPT
+            && (forall|j: int| 0 <= j < i ==> rdata_type(&(#[trigger] add[j]).rdata) != crate::TYPE::OPT)
+            && kept == add.remove(i) && opt == Some(add[i].rdata->OPT_0);
+        assert forall|k: int| 0 <= k < kept.len() implies (#[trigger] kept[k]).wf_ok() && kept[k].wf_canon() by {
+            if k < i { assert(kept[k] == add[k]); } else { assert(kept[k] == add[k + 1]); }
+        }
+        assert(add[i].wf_ok());
+        (add[i].rdata->OPT_0).lemma_fits();
+    }
+}
 /// two sections are observably equal: same length, entries pairwise wf_eqv
 pub open spec fn seq_eqv<'a, T: WireFormat<'a>>(a: Seq<T>, b: Seq<T>) -> bool {
     a.len() == b.len() && forall|i: int| 0 <= i < a.len() ==> (#[trigger] a[i]).wf_eqv(&b[i])
@@ -400,7 +557,7 @@ pub proof fn lemma_lift_build<'a>(w0: Seq<ResourceRecord<'a>>, adds: Seq<Resourc
         w0.len() == (if opt is Some { 1int } else { 0int }),
         opt is Some ==> w0[0].rdata == crate::rdata::RData::OPT(opt.unwrap()) && w0[0].ttl == opt_ttl(rc, opt.unwrap().version),
         opt is None ==> rcode_code(rc) < 16,
-        forall|i: int| 0 <= i < adds.len() ==> rdata_type(&(#[trigger] adds[i]).rdata) != crate::TYPE::OPT,
+        opt is None ==> forall|i: int| 0 <= i < adds.len() ==> rdata_type(&(#[trigger] adds[i]).rdata) != crate::TYPE::OPT,
     ensures
         opt_lifted(w0 + adds, adds, opt),
         rcode_lifted(w0 + adds, rcode_code(rc) & 0xF, rc),
@@ -447,7 +604,7 @@ impl<'a> Packet<'a> {
     pub closed spec fn pkt_canon(&self) -> bool {
         &&& seq_canon::<Question>(self.questions@) && seq_canon::<ResourceRecord>(self.answers@)
         &&& seq_canon::<ResourceRecord>(self.name_servers@) && seq_canon::<ResourceRecord>(self.additional_records@)
-        &&& forall|i: int| 0 <= i < self.additional_records@.len() ==> rdata_type(&(#[trigger] self.additional_records@[i]).rdata) != crate::TYPE::OPT
+        &&& (self.header.opt is None ==> forall|i: int| 0 <= i < self.additional_records@.len() ==> rdata_type(&(#[trigger] self.additional_records@[i]).rdata) != crate::TYPE::OPT)
         &&& self.pkt_enc().len() <= 65535
         // a response code above 15 needs the OPT record to carry its upper bits (RFC 6891 6.1.3)
         &&& (self.header.opt is None ==> rcode_code(self.header.response_code) < 16)
@@ -512,7 +669,7 @@ impl<'a> Packet<'a> {
             rr.ttl == opt_ttl(self.header.response_code, self.header.opt.unwrap().version),
             rr.rdata == crate::rdata::RData::OPT(self.header.opt.unwrap()),
         ensures
-            rr.wf_ok(), rr.wf_enc() == opt_rr_enc(&self.header),
+            rr.wf_ok(), rr.wf_canon(), rr.wf_enc() == opt_rr_enc(&self.header),
             ResourceRecord::wf_dec(pre + rr.wf_enc(), pre.len() as int, rr, (pre + rr.wf_enc()).len() as int),
     {
         lemma_opt_ttl_version(self.header.response_code, self.header.opt.unwrap().version);
@@ -552,6 +709,68 @@ impl<'a> Packet<'a> {
         lemma_chain_det::<ResourceRecord>(data, a3, aadd, a4, badd, b4);
         lemma_lift_det(aadd, badd, self.additional_records@, other.additional_records@, self.header.opt, other.header.opt,
                        hdr_flags(data) & 0xF, self.header.response_code, other.header.response_code);
+    }
+    /// the re-encoding of the packet is representable: every RDATA fits its 16-bit RDLENGTH, the message fits 65535 octets
+    /// (`add` = the additional section as on the wire, i.e. including the OPT record that parse lifts into the header)
+    pub closed spec fn fits(&self, add: Seq<ResourceRecord<'a>>) -> bool {
+        &&& forall|i: int| 0 <= i < self.answers@.len() ==> (#[trigger] self.answers@[i]).wf_fit()
+        &&& forall|i: int| 0 <= i < self.name_servers@.len() ==> (#[trigger] self.name_servers@[i]).wf_fit()
+        &&& forall|i: int| 0 <= i < add.len() ==> (#[trigger] add[i]).wf_fit()
+        &&& self.pkt_enc().len() <= 65535
+    }
+    /// the message decodes to this packet and the packet's re-encoding is representable
+    pub closed spec fn dec_fits(&self, data: Seq<u8>) -> bool {
+        exists|p1: int, p2: int, p3: int, p4: int, add: Seq<ResourceRecord<'a>>|
+            #[trigger] pkt_dec_w(data, self.questions@, self.answers@, self.name_servers@, self.additional_records@, &self.header, p1, p2, p3, p4, add) && self.fits(add)
+    }
+    /// not one of the inputs of known finding D11: an unnamed RCODE nibble (11..15) without an OPT record
+    pub closed spec fn rcode_named(&self, data: Seq<u8>) -> bool { self.header.opt is None ==> hdr_flags(data) & 0xF <= 10 }
+    /// re-serialisation, specification level: a packet decoded from a DNS-sized message satisfies the preconditions of both
+    /// writers (whose post-conditions then say that the output decodes to this packet again), provided its re-encoding is
+    /// representable and the header does not carry one of the unnamed RCODE nibbles 11..15 without EDNS (known finding D11)
+    pub proof fn lemma_parsed_ok(&self, data: Seq<u8>)
+        requires self.dec_fits(data), data.len() <= 65535, self.rcode_named(data),
+        ensures self.pkt_ok(), self.pkt_canon(), // @C11:parsed-packets-can-be-written-back
+    {
+        let (p1, p2, p3, p4, add) = choose|p1: int, p2: int, p3: int, p4: int, add: Seq<ResourceRecord<'a>>|
+            #[trigger] pkt_dec_w(data, self.questions@, self.answers@, self.name_servers@, self.additional_records@, &self.header, p1, p2, p3, p4, add) && self.fits(add);
+        lemma_chain_ok_q(data, 12, self.questions@, p1);
+        lemma_chain_ok_rr(data, p1, self.answers@, p2);
+        lemma_chain_ok_rr(data, p2, self.name_servers@, p3);
+        lemma_chain_ok_rr(data, p3, add, p4);
+        lemma_lift_ok(add, self.additional_records@, self.header.opt);
+        if self.header.opt is None {
+            let lo = hdr_flags(data) & 0xF;
+            assert(self.header.response_code == rcode_of_code(lo));
+            assert(rcode_code(rcode_of_code(lo)) < 16);
+        }
+    }
+    /// build-then-parse, specification level: the plain encoding of a packet within limits decodes to that packet
+    /// (`w0` is the OPT pseudo-record handed over by the writer; it only serves as the witness of the wire-level additional section)
+    proof fn lemma_plain_rt(&self, w0: Seq<ResourceRecord<'a>>)
+        requires
+            self.pkt_ok(), self.pkt_canon(),
+            w0.len() == (if self.header.opt is Some { 1int } else { 0int }),
+            self.header.opt is Some ==> w0[0].name.lv() =~= Seq::<Seq<u8>>::empty() && w0[0].class == crate::CLASS::IN && w0[0].cache_flush == false
+                && w0[0].ttl == opt_ttl(self.header.response_code, self.header.opt.unwrap().version)
+                && w0[0].rdata == crate::rdata::RData::OPT(self.header.opt.unwrap()),
+        ensures self.dec(self.pkt_enc()), // @C02:decode-of-encode
+    {
+        let e0 = hdr_enc(&self.header, self.questions@.len() as u16, self.answers@.len() as u16, self.name_servers@.len() as u16,
+                (self.additional_records@.len() + if self.header.opt is Some { 1int } else { 0int }) as u16);
+        let adds = self.additional_records@;
+        let all = w0 + adds;
+        let oe = opt_rr_enc(&self.header);
+        assert(e0.len() == 12);
+        if self.header.opt is Some { self.lemma_opt_rr(&w0[0], Seq::empty()); }
+        lemma_w0_all(w0, adds, oe);
+        lemma_msg_chains(e0, self.questions@, self.answers@, self.name_servers@, all);
+        let qe = seq_enc::<Question>(self.questions@); let ae = seq_enc::<ResourceRecord>(self.answers@);
+        let ne = seq_enc::<ResourceRecord>(self.name_servers@); let xe = seq_enc::<ResourceRecord>(adds);
+        let m = e0 + qe + ae + ne + seq_enc::<ResourceRecord>(all);
+        lemma_concat_assoc(e0 + qe + ae + ne, oe, xe);
+        assert(self.pkt_enc() == m);
+        self.lemma_assemble(m, 12 + qe.len() as int, 12 + qe.len() as int + ae.len() as int, 12 + qe.len() as int + ae.len() as int + ne.len() as int, w0);
     }
     /// a message made of this packet's header, its sections as chains and the OPT pseudo-record (if any) first in the
     /// additional section decodes to this packet
@@ -623,7 +842,7 @@ def apply(c):
     rel = 'dns/packet.rs'
     c.wrap(rel, "pub struct Packet<'a> {")
     c.append(rel, SPECS)
-    verified = ('parse', 'parse_section', 'write_to', 'write_header', 'write_compressed_to', 'build_bytes_vec', 'build_bytes_vec_compressed')
+    verified = ('parse', 'parse_section', 'write_to', 'write_header', 'write_compressed_to', 'build_bytes_vec', 'build_bytes_vec_compressed', 'section_count')
     for fn in list_fns(c, rel, P_IMPL):
         if fn not in verified:
             c.mark(rel, P_IMPL, fn, '#[verifier::external]')
@@ -709,6 +928,9 @@ def apply(c):
         }
 """, where='before')
     # ---- write_header / write_to
+    c.contract(rel, P_IMPL, 'section_count', """
+        ensures (r is Ok) == (len <= 65535), r is Ok ==> r.unwrap() == len, // @C04:counts-not-truncated
+""")
     c.contract(rel, P_IMPL, 'write_header', """
         requires self.pkt_ok(),
         ensures r is Ok ==> wrote(old(out), final(out), hdr_enc(&self.header, self.questions@.len() as u16, self.answers@.len() as u16,
@@ -716,10 +938,13 @@ def apply(c):
 """)
     c.contract(rel, P_IMPL, 'write_to', """
         requires self.pkt_ok(),
-        ensures r is Ok ==> wrote(old(out), final(out), self.pkt_enc()), // @C04:exactly-the-entries,C02:packet-encoding,C09:one-opt-record
+        ensures
+            r is Ok ==> wrote(old(out), final(out), self.pkt_enc()), // @C04:exactly-the-entries,C02:packet-encoding,C09:one-opt-record
+            r is Ok && self.pkt_canon() ==> self.dec(self.pkt_enc()), // @C02:decode-of-encode,C11:decode-of-encode
 """, pre_body="""
         let ghost e0 = hdr_enc(&self.header, self.questions@.len() as u16, self.answers@.len() as u16, self.name_servers@.len() as u16,
                 (self.additional_records@.len() + if self.header.opt is Some { 1int } else { 0int }) as u16);
+        let ghost mut vx_w0: Seq<ResourceRecord> = Seq::empty();
         let ghost e1 = e0 + seq_enc::<Question>(self.questions@);
         let ghost e2 = e1 + seq_enc::<ResourceRecord>(self.answers@);
         let ghost e3 = e2 + seq_enc::<ResourceRecord>(self.name_servers@);
@@ -731,8 +956,8 @@ def apply(c):
     def loop(k, field, ty, base):
         c.loop_spec(rel, P_IMPL, 'write_to', k, """
             invariant self.plain_ok(), 0 <= vx_it%d.index@ <= self.%s@.len(),
-                wrote(&vx_o0, out, %s + pref::<%s>(self.%s@, vx_it%d.index@ as int)),
-""" % (k, field, base, ty, field, k), iter_name='vx_it%d' % k, body_pre="""
+                wrote(&vx_o0, out, %s + pref::<%s>(self.%s@, vx_it%d.index@ as int)),%s
+""" % (k, field, base, ty, field, k, ' self.pkt_canon() ==> self.dec(self.pkt_enc()),' if k == 3 else ''), iter_name='vx_it%d' % k, body_pre="""
             let ghost vx_prev = *out;
             let ghost vx_i = vx_it%d.index@ as int;
             proof { self.lemma_plain_entry(%d, vx_i); }
@@ -760,10 +985,11 @@ def apply(c):
             proof { self.lemma_opt_rr(&rr, Seq::empty()); }
 """, where='before')
     c.ghost(rel, P_IMPL, 'write_to', "rr.write_to(out)?;", """
-            proof { lemma_wrote_step(&vx_o0, &vx_prev, out, e3, Seq::empty(), rr.wf_enc(), opt_rr_enc(&self.header)); assert(e3 + Seq::<u8>::empty() =~= e3); }
+            proof { lemma_wrote_step(&vx_o0, &vx_prev, out, e3, Seq::empty(), rr.wf_enc(), opt_rr_enc(&self.header)); assert(e3 + Seq::<u8>::empty() =~= e3); vx_w0 = seq![rr]; }
 """, where='after')
     boundary("for e in &self.additional_records", None, None, 'additional_records', 'ResourceRecord',
-             " assert(e4 + Seq::<u8>::empty() =~= e4); if self.header.opt is None { assert(e3 + opt_rr_enc(&self.header) =~= e3); }")
+             " assert(e4 + Seq::<u8>::empty() =~= e4); if self.header.opt is None { assert(e3 + opt_rr_enc(&self.header) =~= e3); }"
+             " if self.pkt_canon() { self.lemma_plain_rt(vx_w0); }")
     boundary("out.flush()?;", 'additional_records', 'ResourceRecord', None, None)
     loop(0, 'questions', 'Question', 'e0')
     loop(1, 'answers', 'ResourceRecord', 'e1')
@@ -772,7 +998,9 @@ def apply(c):
     # ---- vector-returning entry points: same bytes as the writer-based ones (the same spec function / relation)
     c.contract(rel, P_IMPL, 'build_bytes_vec', """
         requires self.pkt_ok(),
-        ensures r is Ok ==> r.unwrap()@ == self.pkt_enc(), // @C04:vec-and-writer-agree,C02:packet-encoding
+        ensures
+            r is Ok ==> r.unwrap()@ == self.pkt_enc(), // @C04:vec-and-writer-agree,C02:packet-encoding
+            r is Ok && self.pkt_canon() ==> self.dec(r.unwrap()@), // @C02:build-then-parse-decodes-to-the-packet
 """, pre_body="\n        broadcast use crate::vx::axiom_cursor_vec;\n")
     c.ghost(rel, P_IMPL, 'build_bytes_vec', "self.write_to(&mut out)?;", "        let ghost vx_o0 = out;\n        proof { assert(at_end(&vx_o0)); }", where='before')
     c.ghost(rel, P_IMPL, 'build_bytes_vec', "self.write_to(&mut out)?;", "        proof { assert(io_buf(&out) =~= self.pkt_enc()); }", where='after')
